@@ -14,7 +14,15 @@
     prefixes over the OS filesystem) in Proofs/LawsOsfs*.v, which gives the
     closed [C02_concrete_between_operations_partial] below.
     Proofs/ConcreteExample.v exhibits a non-trivial instance of its
-    hypotheses ([c02_concrete_instance]). *)
+    hypotheses ([c02_concrete_instance]).
+
+    The law-level statements are parameterised by [hid]/[anc] (what the base
+    hides: paths at or below a hidden location, its proper ancestors; [nohid]
+    for a base that hides nothing) and the Rollback statements from an
+    arbitrary invariant state ask for [loc_ok hid anc B0] (see Props/C01.v);
+    the [*_documented] theorems at the end of the file are the closed
+    instances for the documented layering (location inside the base tree,
+    hidden by HiddenFS: Proofs/LawsHidden*.v). *)
 From stdpp Require Import gmap.
 From BFS Require Import Spec.CopySpecs.
 From BFS Require Import Proofs.BackupCopy Proofs.BackupTry Proofs.BackupRollback Proofs.BackupC01.
@@ -22,8 +30,8 @@ From BFS Require Import Spec.ViewOsfs Proofs.LawsOsfs.
 
 
 Theorem C02_between_operations_partial :
-  forall base backup Vb Vk tnb tnk accb acck rhb rhk whb whk B0,
-    base_laws base Vb Vk tnb accb rhb whb -> base_laws2 base Vb Vk tnb accb rhb whb ->
+  forall base backup Vb Vk tnb tnk accb acck rhb rhk whb whk hid anc B0,
+    base_laws base Vb Vk tnb accb rhb whb hid anc -> base_laws2 base Vb Vk tnb accb rhb whb ->
     backup_laws backup Vb Vk tnk acck rhk whk ->
     all_small B0 ->
     forall w0 ops w, initial Vb Vk tnb tnk accb acck B0 w0 -> good_run base backup Vb w0 ops w ->
@@ -54,7 +62,25 @@ Print Assumptions C02_concrete_between_operations_partial.
 (** a failed or successful [tryBackup] never modifies the base view and keeps
     the invariant (in particular what was copied stays copied) *)
 Theorem C02_try_backup_base_untouched :
-  forall base backup Vb Vk tnb tnk accb acck rhb rhk whb whk B0,
-  try_backup_stmt base backup Vb Vk tnb tnk accb acck rhb rhk whb whk B0.
+  forall base backup Vb Vk tnb tnk accb acck rhb rhk whb whk hid anc B0,
+  try_backup_stmt base backup Vb Vk tnb tnk accb acck rhb rhk whb whk hid anc B0.
 Proof. exact try_backup_spec. Qed.
 Print Assumptions C02_try_backup_base_untouched.
+
+(** the same, closed, for the DOCUMENTED layering (location inside the base
+    tree, hidden by HiddenFS: Proofs/LawsHidden.v) *)
+From BFS Require Import Spec.ViewHidden Proofs.LawsHidden.
+
+Theorem C02_documented_between_operations_partial :
+  forall pa h, prefix_ok pa -> hidden_ok h ->
+  forall B0, all_small B0 ->
+  forall w0 ops w,
+    initial (VpH pa h) (Vp (pk_h pa h)) clean clean (acc_h pa h) (acc_p (pk_h pa h)) B0 w0 ->
+    good_run (cfg_base (dcfg pa h)) (cfg_backup (dcfg pa h)) (VpH pa h) w0 ops w ->
+    (forall p n0, B0 !! p = Some n0 -> p <> s_root ->
+       sonode_eqv (VpH pa h w !! p) (Some n0) \/
+       exists nk, Vp (pk_h pa h) w !! p = Some nk /\ copy_of n0 nk) /\
+    (forall p, p <> s_root -> Vp (pk_h pa h) w !! p <> None ->
+       exists n0 nk, B0 !! p = Some n0 /\ Vp (pk_h pa h) w !! p = Some nk /\ copy_of n0 nk).
+Proof. exact c02_documented. Qed.
+Print Assumptions C02_documented_between_operations_partial.
